@@ -36,6 +36,17 @@ impl ManualHeap {
         self.bytes_allocated
     }
 
+    /// Adds `bytes` held outside the slot table (the byte buffers of std.bytes) to the counter the
+    /// heap limit is checked against.
+    pub fn charge_external(&mut self, bytes: usize) {
+        self.bytes_allocated = self.bytes_allocated.saturating_add(bytes);
+    }
+
+    /// Gives back what `charge_external` added.
+    pub fn release_external(&mut self, bytes: usize) {
+        self.bytes_allocated = self.bytes_allocated.saturating_sub(bytes);
+    }
+
     /// Every value currently held in a live (not freed) buffer: the collector's roots.
     pub fn live_values(&self) -> impl Iterator<Item = Value> + '_ {
         self.allocations
